@@ -86,6 +86,16 @@ func genC14(r *Rng, tier string) *Plan {
 			g.Csr[e.ID] = true
 		}
 	}
+	if r.Chance(1, 25) {
+		e := Pick(r, g.Ents)
+		g.P.Meta["big-oid"] = addBigOid(r, e)
+		g.P.Meta["big-oid-ent"] = e.ID
+		for i := range g.P.Ops {
+			if g.P.Ops[i].K == "put-ent" && g.P.Ops[i].Spec.ID == e.ID {
+				g.P.Ops[i].Spec = e
+			}
+		}
+	}
 	g.Run(DefaultFlags, "setup")
 	if r.Chance(1, 3) {
 		g.MakeCsrLeaf()
@@ -253,6 +263,11 @@ func (o *c14Oracle) AfterRun(w *World, op *Op, res *RunResult) {
 			}
 		}
 	}
+	if !res.OK() && w.Plan.Meta["big-oid"] != "" {
+		// a configuration with an OID arc beyond 2^31: refusing it is gopki's right
+		w.Hit("big-oid-refused")
+		return
+	}
 	if op.HasTag("setup") && !res.OK() {
 		// a default run over a sound forest whose artifacts hold, at most, a usable key each
 		w.Fail("first-generation-failed-on-runnable-world", "stage=%s err=%s", res.Stage, res.Err)
@@ -270,7 +285,12 @@ func (o *c14Oracle) AfterRun(w *World, op *Op, res *RunResult) {
 		w.Hit("run-had-work")
 	}
 	// certificates signed by reused keys keep verifying
-	for _, c := range w.CheckChains(ChainOpts{RequireAll: true, Only: func(e *EntitySpec, a *Artifact) bool { return a.Pem.HasHash || !a.Exists }}) {
+	for _, c := range w.CheckChains(ChainOpts{RequireAll: true, Only: func(e *EntitySpec, a *Artifact) bool {
+		if e.ID == w.Plan.Meta["big-oid-ent"] && !a.Exists {
+			return false // its configuration was refused (skipped with a warning): nothing was issued for it
+		}
+		return a.Pem.HasHash || !a.Exists
+	}}) {
 		if knownC01Sig(c.Sig) {
 			continue
 		}
